@@ -29,6 +29,17 @@ enum Op {
     Snapshot,
 }
 
+/// weight labels: 100 / 101 / 102 are +0.0 / -0.0 / the smallest positive float (values that compare
+/// equal, or almost, and are different weights); other labels are label + offset
+fn weight_of(label: i32, offset: f32) -> f32 {
+    match label {
+        100 => 0.0,
+        101 => -0.0,
+        102 => f32::from_bits(1),
+        _ => label as f32 + offset,
+    }
+}
+
 #[derive(Clone, Default, PartialEq, Debug)]
 struct Model {
     nodes: BTreeMap<usize, i32>,
@@ -86,7 +97,7 @@ impl H {
             }
             Op::AddEdge(a, b, w) => {
                 let (o, d) = (self.id(*a), self.id(*b));
-                let wf = *w as f32 + 0.5;
+                let wf = weight_of(*w, 0.5);
                 self.real.add_edge(o, d, wf);
                 if self.model.nodes.contains_key(&o) && self.model.nodes.contains_key(&d) {
                     self.model.edges.entry((o, d)).or_insert(fb(wf));
@@ -106,7 +117,7 @@ impl H {
             }
             Op::SetWeight(a, b, w) => {
                 let (o, d) = (self.id(*a), self.id(*b));
-                let wf = *w as f32 + 0.25;
+                let wf = weight_of(*w, 0.25);
                 self.real.set_weight(&o, &d, wf);
                 if let Some(x) = self.model.edges.get_mut(&(o, d)) {
                     *x = fb(wf);
@@ -198,6 +209,15 @@ impl H {
             }
             let d = g.diff(&self.real);
             let same = *m == self.model;
+            // +0.0 and -0.0 are the same number: a pair of graphs that differs only in the sign of a zero
+            // weight is a don't-care for the textual diff (the stored weight itself is still compared exactly)
+            let zero_signs_only = !same
+                && m.nodes == self.model.nodes
+                && m.edges.len() == self.model.edges.len()
+                && m.edges.iter().zip(self.model.edges.iter()).all(|((ka, wa), (kb, wb))| ka == kb && (wa == wb || (fl(*wa) == 0.0 && fl(*wb) == 0.0)));
+            if zero_signs_only {
+                continue;
+            }
             if d.is_none() != same {
                 return Err(format!("diff(snapshot #{}, current) is {:?} but the models are {}", k, d, if same { "equal" } else { "different" }));
             }
@@ -387,7 +407,13 @@ fn instr_part(ctx: &mut Ctx) {
                         st.int_stack.push(*r.pick(&depth_opts));
                     }
                     if name == "GRAPH.EDGE*ADD" || name == "GRAPH.EDGE*SETWEIGHT" {
-                        st.float_stack.push(if r.chance(1, 12) { f32::NAN } else { gen::grid_float(&mut r) });
+                        // weights: grid values, NaN, and the zero-like family (+0.0, -0.0, smallest positive) and print twins
+                        st.float_stack.push(match r.below(12) {
+                            0 => f32::NAN,
+                            1 | 2 => *r.pick(&[0.0f32, -0.0, f32::from_bits(1)]),
+                            3 => gen::twin_float(&mut r),
+                            _ => gen::grid_float(&mut r),
+                        });
                     }
                 }
                 _ => {}
@@ -456,7 +482,7 @@ pub fn run(ctx: &mut Ctx) {
     }
     ctx.rec.note("exhaustive_space", &space.to_string());
     // random histories on up to 12 slots
-    let nr = ctx.n(4000, 100000);
+    let nr = ctx.n(1500, 100000);
     for j in 0..nr as u64 {
         case += 1;
         if !ctx.mine(case) {
@@ -476,6 +502,12 @@ pub fn run(ctx: &mut Ctx) {
                 h.push(Op::Snapshot);
             } else if r.chance(1, 8) {
                 h.push(Op::ReAddEdge(r.below(13), r.below(2)));
+            } else if r.chance(1, 8) {
+                // zero-like weights on few edges: +0.0 then -0.0 on the same edge is a change
+                let (a, b) = (r.below(3), r.below(2));
+                h.push(Op::AddEdge(a, b, 100 + r.below(3) as i32));
+                h.push(Op::SetWeight(a, b, 100 + r.below(3) as i32));
+                h.push(Op::SetWeight(a, b, 100 + r.below(3) as i32));
             } else {
                 h.push(r.pick(&big).clone());
             }
